@@ -28,7 +28,7 @@ def coind_table(ck, facts, R, only=None, floor=24):
     key = "<chalk_ir::Goal as chalk_solve::coinductive_goal::IsCoinductive>::is_coinductive"
     b = need_body(ck, facts, R, key)
     if b:
-        ms = enum_matches(b.thir, "chalk_ir::GoalData")
+        ms = enum_matches(facts.thir(b.key), "chalk_ir::GoalData")
         if len(ms) != 1:
             ck.violation(R, "is_coinductive:match", b.where(), "expected one match on GoalData")
         else:
@@ -103,7 +103,7 @@ def run(ck, facts, tier):
     if ct and pa:
         th = facts.thir("chalk_solve::clauses::constituent_types")
         ms = enum_matches(th, TYKIND)
-        pm = enum_matches(pa.thir, TYKIND)
+        pm = enum_matches(facts.thir(pa.key), TYKIND)
         if len(ms) != 1 or len(pm) != 1:
             ck.violation(R, "matches", ct.where(), "expected one TyKind match in constituent_types and in push_auto_trait_impls")
         else:
